@@ -1,6 +1,7 @@
 """C12 — async methods: exact Output, Send by default, opt-out honoured."""
 from ..common import Report
-from ..corpus import load, load_repo_tests
+from ..corpus import load, load_repo_tests, load_repo_examples
+from ..docgen import load_repo_docs
 from ..crossgen import load_cross
 from ..model import ty_s, mentions
 from ..wrules import (FnModView, TraitView, ImplBlockView, trait_methods, impl_methods, in_macro, last_seg, impls_of)
@@ -61,6 +62,8 @@ def run(tier):
     loaded += [(cfg, load_cross(rep, cfg, tier)) for cfg in configs]
     if tier == "thorough":
         loaded.append(("unimock_test", load_repo_tests(rep)))
+        loaded += [("unimock_test", ld) for ld in load_repo_examples(rep)]
+        loaded.append(("unimock_test", load_repo_docs(rep)))
     for cfg, ld in loaded:
         crate = ld.crate
         for exp in crate.expansions:
